@@ -141,4 +141,8 @@ def plan(exp, tier):
                       'IndexMut<(usize,usize)> (m[(i,j)] = ..) is assumed here (unsafe as_mut_slice underneath); proved by Kani under C18']
     p.not_decided += ['the limit far -> infinity of the infinite perspective (stated instead: near -> -1 and depth < 1 for every d > 0)',
                       'perspective_fov corners are reached through perspective_fov == perspective(width/height) == frustum(symmetric planes)']
+    # IndexMut<(usize,usize)> is an assumed contract of the Verus unit (unsafe slice views); the builders of this property write through it,
+    # so its Kani proof on the real code (crate /verif/kani/c03) is part of this check too
+    import kani_driver
+    p.kani = [sp for sp in kani_driver.load_specs('c03') if 'index_mut' in sp['harness']]
     return p
